@@ -320,6 +320,10 @@ def plan_c19(ctx):
     for idx in mism[:2]:
         path = write_c19_replay(ctx, bins, idx, "C19.digest", "results differ between feature configurations")
         detail = c19_diff(bins, path)
+        if detail.startswith("digests differ (no differing"):
+            # not reproducible alone: depends on what the worker had executed before
+            path = write_c19_replay(ctx, bins, idx, "C19.digest", "results differ between feature configurations (after the scenarios executed before it in the same process)", first=(idx // per) * per)
+            detail = c19_diff(bins, path)
         ctx.found.append({"oracle": "C19.digest", "sig": "results-differ", "detail": f"scenario index {idx}: {detail}", "replay": path, "c19": True})
     agg = o.collect(ctx)
     agg["evaluations"] = evaluations
@@ -335,20 +339,38 @@ def plan_c19(ctx):
     return agg, rule, ["the harness itself is always built with std; only the dependency's feature set varies", "now()/local() (std-only, clock/filesystem dependent) are not part of the cross-build comparison"], extra
 
 
-def write_c19_replay(ctx, bins, idx, oracle, detail):
+def write_c19_replay(ctx, bins, idx, oracle, detail, first=None):
+    """`first`: index at which the worker that executed `idx` had started (the replay then executes
+    first..idx in the same process before the scenario itself: state left behind is part of the input)."""
     os.makedirs(ctx.replays, exist_ok=True)
     rc, text = o.sh([bins["core"], "gen", str(ctx.seed), str(idx)])
     path = os.path.join(ctx.replays, f"C19-{idx}.c19.scn")
     with open(path, "w") as f:
         f.write(f"# property C19\n# oracle {oracle}\n# detail {detail}\n# verif_seed {ctx.seed}\n# index {idx}\n")
+        if first is not None and first < idx:
+            f.write(f"# first {first}\n")
         f.write(text)
     return path
+
+
+def c19_exec_argv(binary, path):
+    hdr = {}
+    for line in open(path):
+        if not line.startswith("# "):
+            break
+        parts = line[2:].split()
+        if len(parts) == 2:
+            hdr[parts[0]] = parts[1]
+    argv = [binary, "exec", path]
+    if "first" in hdr and "index" in hdr and "verif_seed" in hdr:
+        argv += ["--prelude", hdr["verif_seed"], hdr["first"], hdr["index"]]
+    return argv
 
 
 def c19_diff(bins, path):
     outs = {}
     for name, b in bins.items():
-        rc, out = o.sh([b, "exec", path])
+        rc, out = o.sh(c19_exec_argv(b, path))
         outs[name] = [l for l in out.splitlines() if l.startswith("op ")]
     for surface, names in (("core", ("core", "alloc", "std")), ("alloc", ("alloc", "std"))):
         rows = [[l for l in outs[n] if f" {surface} " in l] for n in names]
@@ -414,7 +436,7 @@ def replay_special(verif, path):
         outs = {}
         bad = False
         for name, b in bins.items():
-            rc, out = o.sh([b, "exec", path])
+            rc, out = o.sh(c19_exec_argv(b, path))
             print(out)
             outs[name] = out
             if rc != 0 or "NOALLOC" in out:
